@@ -1211,9 +1211,14 @@ impl Operator for FilterOperator {
             }
 
             // Apply predicate to create selection vector
-            let count = chunk.total_row_count();
-            let selection =
-                SelectionVector::from_predicate(count, |row| self.predicate.evaluate(&chunk, row));
+            // Only rows still selected by upstream operators are candidates: a row an
+            // earlier filter removed must not come back
+            let selection = match chunk.selection() {
+                Some(existing) => existing.filter(|row| self.predicate.evaluate(&chunk, row)),
+                None => SelectionVector::from_predicate(chunk.total_row_count(), |row| {
+                    self.predicate.evaluate(&chunk, row)
+                }),
+            };
 
             // If nothing passes, skip to next chunk
             if selection.is_empty() {
